@@ -349,6 +349,9 @@ type CompCase struct {
 	Payloads []Payload `json:"payloads"`
 	Workers  int       `json:"workers"`
 	Rounds   int       `json:"rounds"` // round trips per worker and payload (many rounds only with small payloads)
+	// WriteChunk > 0: the payload is handed to the compressing writer in pieces of this size through ONE scratch buffer that is refilled
+	// after every Write (io.Writer: "Write must not retain p") - newer gRPC versions write a message buffer by buffer and recycle the buffers
+	WriteChunk int `json:"write_chunk,omitempty"`
 }
 
 func genComp(t *rapid.T) CompCase {
@@ -359,6 +362,9 @@ func genComp(t *rapid.T) CompCase {
 		maxBig = 8 << 20
 	}
 	c.Rounds = rapid.SampledFrom([]int{3, 3, 30, 400}).Draw(t, "rounds")
+	if rapid.IntRange(0, 2).Draw(t, "chunked") == 0 {
+		c.WriteChunk = rapid.SampledFrom([]int{7, 100, 4096, 65536, 70000}).Draw(t, "writechunk")
+	}
 	for i := 0; i < n; i++ {
 		p := Payload{Seed: rapid.IntRange(1, 1<<20).Draw(t, "seed")}
 		if c.Rounds > 3 {
@@ -382,14 +388,27 @@ func genComp(t *rapid.T) CompCase {
 	return c
 }
 
-func roundTrip(comp encoding.Compressor, data []byte) error {
+func roundTrip(comp encoding.Compressor, data []byte) error { return roundTripChunked(comp, data, 0) }
+
+func roundTripChunked(comp encoding.Compressor, data []byte, chunk int) error {
 	var buf bytes.Buffer
 	w, err := comp.Compress(&buf)
 	if err != nil {
 		return fmt.Errorf("Compress: %w", err)
 	}
-	// gRPC writes the whole message in one Write and closes
-	if _, err := w.Write(data); err != nil {
+	if chunk > 0 {
+		scratch := make([]byte, chunk)
+		for rest := data; len(rest) > 0; {
+			n := copy(scratch, rest)
+			if wn, err := w.Write(scratch[:n]); err != nil || wn != n {
+				return fmt.Errorf("write of %d bytes: n=%d err=%v", n, wn, err)
+			}
+			rest = rest[n:]
+			for i := range scratch[:n] { // the caller owns the buffer again
+				scratch[i] = 0xEE
+			}
+		}
+	} else if _, err := w.Write(data); err != nil { // older gRPC: the whole message in one Write
 		return fmt.Errorf("write: %w", err)
 	}
 	if err := w.Close(); err != nil {
@@ -437,7 +456,7 @@ func runComp(c CompCase, o *vt.Obs) *vt.Failure {
 			for round := 0; round < max(c.Rounds, 1); round++ {
 				for i := range datas {
 					idx := (i + wkr) % len(datas)
-					if err := roundTrip(comp, datas[idx]); err != nil {
+					if err := roundTripChunked(comp, datas[idx], c.WriteChunk); err != nil {
 						mu.Lock()
 						if fail == nil {
 							fail = vt.Failf(prop+"/compressor-round-trip:"+c.Name, idx, "%s, %d concurrent users, payload %d (%s, %d bytes): %v", c.Name, c.Workers, idx, c.Payloads[idx].Kind, len(datas[idx]), err)
@@ -454,6 +473,9 @@ func runComp(c CompCase, o *vt.Obs) *vt.Failure {
 		return fail
 	}
 	o.Label("compressor:" + c.Name)
+	if c.WriteChunk > 0 {
+		o.Label("payload-written-in-pieces-through-a-reused-buffer")
+	}
 	if c.Workers > 1 {
 		o.Label("concurrent-users")
 	}
